@@ -419,9 +419,13 @@ class Machine:
         s_, _ = _container(op["kind"], bits)
         if len(bits) > 15 and op["kind"] == "str":
             return "skip"
-        for dt in (int, float):
+        for dt in (int, float, None):
             try:
-                ut.str2array(s_, dt)
+                arr = ut.str2array(s_, dt) if dt is not None else ut.str2array(s_)
+                # ... and owns what it got back: it writes into the array (must not reach any later reader of the text)
+                if isinstance(arr, np.ndarray) and arr.flags.writeable and arr.size:
+                    arr[...] = 1 - arr if arr.dtype != bool else ~arr
+                    self.rec.fault("scribble_result")
             except Exception:
                 pass
         return "ok"
